@@ -80,6 +80,7 @@ type Config struct {
 	StopOnViol  bool
 	Witness     bool
 	Tolerant    func(string) bool
+	Stubs       map[string]string // function full name -> harness function name (same package as Entry)
 }
 
 type sharedWork struct {
@@ -177,6 +178,16 @@ func Explore(cfg *Config) (*Report, error) {
 			m.Trace = cfg.Trace
 			m.Witness = cfg.Witness
 			m.TolerantInit = cfg.Tolerant
+			if len(cfg.Stubs) > 0 {
+				m.Stubs = map[string]*ssa.Function{}
+				for k, v := range cfg.Stubs {
+					if f := cfg.Pkg.Func(v); f != nil {
+						m.Stubs[k] = f
+					} else {
+						errs[wi] = fmt.Errorf("stub function %s not found", v)
+					}
+				}
+			}
 			if cfg.StepBudget > 0 {
 				m.StepBudget = cfg.StepBudget
 			}
